@@ -103,15 +103,22 @@ type c08World struct {
 
 func (w *c08World) note(f string, a ...any) { w.hist = append(w.hist, fmt.Sprintf(f, a...)) }
 
+// quiesce waits until no call is being delivered and nothing new has appeared on the bus for 25 ms (a gossip goroutine that
+// was started by the last action but not scheduled yet must not be attributed to the next action), at most 3 s.
 func (w *c08World) quiesce() {
-	last := -1
-	for i := 0; i < 200; i++ {
-		time.Sleep(3 * time.Millisecond)
+	last, stable := -1, 0
+	for i := 0; i < 600; i++ {
+		time.Sleep(5 * time.Millisecond)
 		w.bus.mu.Lock()
 		n := len(w.bus.Tap)
 		w.bus.mu.Unlock()
-		if n == last {
-			return
+		if n == last && w.bus.InFlight.Load() == 0 {
+			stable++
+			if stable >= 5 {
+				return
+			}
+		} else {
+			stable = 0
 		}
 		last = n
 	}
@@ -272,7 +279,29 @@ func TestC08StateMachine(t *testing.T) {
 				return p, false
 			}
 			p.leader = p.remaining[0]
+			// a node outside the group can only be proposed as a joiner if its own records allow the network's next epoch: it is
+			// Fresh or Left, or its last completed epoch is the current one (validateEpoch); a former member that dropped out of an
+			// attempt with abort instead of leaving is stuck one epoch behind and has to be reset by its operator
+			canTake := func(n *Node, epoch uint32) bool {
+				c, _ := n.Current()
+				if c == nil {
+					return true
+				}
+				base := c
+				if c.State == dkg.Aborted || c.State == dkg.TimedOut || c.State == dkg.Failed {
+					f, _ := n.Finished()
+					if f == nil {
+						return true
+					}
+					base = f
+				}
+				return epoch == base.Epoch+1 || (epoch > base.Epoch+1 && (base.State == dkg.Left || base.State == dkg.Fresh))
+			}
 			for _, n := range w.nodes {
+				if !w.members[n.Addr] && !canTake(n, w.completedEpoch+1) {
+					flags["outsider-stuck-behind"] = true
+					continue
+				}
 				if !w.members[n.Addr] && rapid.Bool().Draw(t, "join") {
 					// listed finding: a node whose record is in state Left (it left in an earlier epoch) panics on any later proposal;
 					// such nodes are not proposed again so that the search continues behind the finding
